@@ -32,7 +32,7 @@ ASSUMPTIONS = [
   "memory are re-seeded with a Hypothesis-drawn value (the library fixes them per port)",
   "checksum: 128-bit message layout = word i in bits [16i,16i+16) (examples/ex02_cksum/utils.py)",
 ]
-QUICK_S = 44
+QUICK_S = 240
 THOROUGH_S = 780
 
 LEVELS = ("FL", "CL", "RTL")
